@@ -1186,6 +1186,8 @@ def eval_case(ctx: Ctx, case: dict):
             return eval_fresh(ctx, case)
         if case["kind"] == "alias":
             return eval_alias(ctx, case)
+        if case["kind"] == "lockhook":
+            return eval_lockhook(ctx, case)
     except Exception as e:  # noqa: BLE001 - e.g. the zone constructor itself raises (the initial version is pruned away)
         import traceback
 
@@ -1328,6 +1330,10 @@ BOUNDARY = [
 
 
 def generate(ctx: Ctx, scale: int, rng):
+    for i in range(150 * scale):
+        c = gen_lockhook(rng, "btree" if i % 2 else "versioned")
+        ctx.case(case_key(c), True, sample=c if i < 2 else None)
+        eval_case(ctx, c)
     for i in range(60 * scale):
         c = gen_alias(rng, "btree" if i % 2 else "versioned")
         ctx.case(case_key(c), True, sample=c if i < 2 else None)
@@ -1359,6 +1365,12 @@ def run(ctx: Ctx):
             c = {"kind": "immutability", "zone": zk, "fresh": fresh, "extended": extended}
             ctx.case(case_key(c))
             eval_case(ctx, c)
+    for zk in ZONES:
+        for b in LOCKHOOK_BOUNDARY:
+            c = dict(b, kind="lockhook", zone=zk)
+            ctx.case(case_key(c))
+            eval_case(ctx, c)
+            ctx.count("boundary.lockhook")
     for zk in ZONES:
         for txns in ALIAS_BOUNDARY:
             c = {"kind": "alias", "zone": zk, "txns": txns, "readers_at": [0, len(txns) - 1]}
